@@ -17,6 +17,10 @@ _lang_obj = _tsn.language()
 _LANG = _lang_obj if isinstance(_lang_obj, Language) else Language(_lang_obj)
 _PARSER = Parser(_LANG)
 
+import re as _re
+
+# a binding-less `let in` (which the library may elide): never produced by generators, rejected while shrinking
+EMPTY_LET = _re.compile(r"\blet\s+in\b")
 SET_TYPES = ("attrset_expression", "rec_attrset_expression")
 KEYWORDS = {"true", "false", "null"}
 
